@@ -800,6 +800,21 @@ def pfst_text(text):
     return text + '\n' if text.endswith('\\\n') else text      # documented convention of pfst's parse functions
 
 
+def _case_kw(src, pattern):
+    """(line, column) of the `case` keyword that opens the match_case whose pattern is given (tokenizer only)"""
+    best = None
+    try:
+        import io
+        for t in tokenize.generate_tokens(io.StringIO(src).readline):      # lazily: an error at the very end must not matter
+            if t.start >= (pattern.lineno, char_col(src.split('\n')[pattern.lineno - 1], pattern.col_offset)):
+                break
+            if t.type == tokenize.NAME and t.string == 'case':
+                best = t.start
+    except Exception:
+        pass
+    return best
+
+
 def phase_c(arg):
     """(record, model plan) -> dict(mode, model_accept, why, tree_case|None, aux)"""
     r, m = arg
@@ -826,6 +841,9 @@ def phase_c(arg):
     out['mode'] = 'stmt' if m['set_ast'] else 'head'
     text = '\n'.join(m['handed'])
     W, e = cpy_parse(pfst_text(text))
+    if W is None and not isinstance(e, SyntaxError):
+        out['mode'] = 'cpython-internal-error'      # e.g. ValueError("field 'value' is required for Constant") on nested
+        return out                                  # f-string format specs in 3.12.1: not a verdict on the text
     if W is None:
         out['model_accept'] = False
         out['why'] = 'wrapper-rejected'
@@ -835,7 +853,7 @@ def phase_c(arg):
         out['model_accept'] = False
         out['why'] = 'region-vanished'
         return out
-    out['model_accept'] = True
+    out['model_accept'] = True      # the wrapper parses and the node is there; whether it is USED is the model's guard
     T0 = ast.parse(r['src'])
     old = follow(T0, st['path'])
     z = ser_zip(T0, st['path']) if old is not None else None
@@ -843,35 +861,45 @@ def phase_c(arg):
         out['why'] = 'no-zipper'
         return out
     lines = facts['lines']
-    mode = {'set_ast': m['set_ast'], 'is_elif': st['is_elif'], 'first_lineno': m['first_lineno'], 'delta': m['delta'],
-            'no_end_copy': st['kind'] == 'match_case', 'fixed': bool(os.environ.get('C10_MODEL_FIXED'))}
+    # does anything follow the node in the wrapper (at any level), other than the synthetic `finally: pass`?
+    follows = False
+    n = W
+    wp = WRAP_PATHS[m['path']]
+    for depth, (f, i) in enumerate(wp):
+        child = getattr(n, f)[i]
+        kids = util.soc(n)
+        k = next(j for j, c in enumerate(kids) if c is child)
+        rest = kids[k + 1:]
+        if depth == len(wp) - 1 and m['first_lineno'] == 1:
+            fin = set(id(x) for x in getattr(n, 'finalbody', []) or [])
+            rest = [x for x in rest if id(x) not in fin]
+        if rest:
+            follows = True
+        n = child
+    # ... or text other than a comment / line continuation after it on its last line (a new trailing `;`)
+    last = wsub if getattr(wsub, 'end_col_offset', None) is not None else wsub.body[-1]
+    hl = m['handed'][last.end_lineno - 1]
+    rest = hl[char_col(hl, last.end_col_offset):].strip()
+    real_rest = lines[st['bloc'][2]][st['bloc'][3]:].strip()      # what follows the OLD node on its last line in the real source
+    if rest and rest != '\\' and (real_rest or not rest.startswith('#')):
+        follows = True                                            # (a new comment would swallow `real_rest`)
+    mode = {'set_ast': m['set_ast'], 'first_lineno': m['first_lineno'], 'delta': m['delta'],
+            'no_end_copy': st['kind'] == 'match_case', 'follows': follows}
+    if st['kind'] == 'ExceptHandler' and len(st['path']) >= 1:
+        mode['same_parent_kind'] = follow(W, wp[:-1]).__class__ is follow(T0, st['path'][:-1]).__class__
+    if st['kind'] == 'match_case':
+        mode['same_start'] = _case_kw(r['src'], old.pattern) == _case_kw(text, wsub.pattern)
     focus = z[1]
+    shape_ok = True
     if not m['set_ast']:
         a, b = n_head(old), n_head(wsub)
         if a is None or b is None:
-            out['why'] = 'head-shape'
-            return out
-        if old.__class__ is not wsub.__class__:
-            # `setattr(copya, field, body)` for every block field the OLD node has: fields the new class does not have are
-            # invisible to CPython's tree walk; block fields only the new class has keep the parsed content
-            seq = []
-            for f in wsub._fields:
-                if f in BLOCK_FIELDS:
-                    ob = getattr(old, f, None)
-                    kids_f = ('old', ob) if ob is not None else ('sub', getattr(wsub, f, None) or [])
-                    if kids_f[1]:
-                        seq.append(kids_f)
-            tags = [t for t, _ in seq]
-            if tags != sorted(tags, reverse=True):      # must be sub* old* to fit `take nNewHead ++ drop nOldHead`
-                out['why'] = 'head-mixed'
-                return out
-            b += sum(len(k) for t, k in seq if t == 'sub')
-            kept_ids = set(id(c) for t, k in seq if t == 'old' for c in k)
-            okids = util.soc(old)
-            focus = [focus[0], focus[1], [ser_node(c) for c in okids[:a]] + [ser_node(c) for c in okids[a:] if id(c) in kept_ids]]
-        mode['n_old_head'], mode['n_new_head'] = a, b
+            shape_ok = False
+            a, b = a or 0, b or 0
+        mode['n_old_head'], mode['n_new_head'] = a, b      # (a header-only graft onto another kind of node is refused by the guard)
     off = [len(new_lines), ln, end_ln, util.byte_len(lines[end_ln][:end_col]), util.byte_len(new_lines[-1]),
            util.byte_len(lines[ln][:col])]
+    out['shape_ok'] = shape_ok
     out['tree_case'] = {'f': 'C10.tree', 'ctx': z[0], 'focus': focus, 'sub': ser_node(wsub), 'off': off, 'mode': mode}
     return out
 
@@ -950,6 +978,9 @@ def phase_e(arg):
             else:
                 res['tally']['refused_before_reparse_invalid'] = True
             return res
+    if (R is None and not isinstance(err, SyntaxError)) or (c and c.get('mode') == 'cpython-internal-error'):
+        res['tally']['cpython_internal_error'] = True       # ast.parse raised something that is not a verdict on the source
+        return res
     # rectangle actually used (raw put): must be the CPython span of the node
     rect_ev = ev_of(r, 'rect') if reached else None
     if rect_ev is not None and (rect_ev['rect'] != list(rect) or '\n'.join(rect_ev['new_lines']) != r['new']):
@@ -957,22 +988,33 @@ def phase_e(arg):
         return res
     mode = c['mode'] if c else None
     res['tally']['mode'] = mode
-    # implementation accept/refuse vs model accept/refuse
-    if c and c['model_accept'] is not None and mode != 'whole':
-        if bool(raised) == bool(c['model_accept']):
-            res['corr'].append(f'model_accept={c["model_accept"]} ({c["why"]}) but implementation raised={raised}')
+    # the model of the repaired `_reparse_raw`: the incremental result is used iff the wrapper parses, the node is found and
+    # the guard holds (one node, same kind, same place, nothing after it); otherwise the whole source decides
+    full_ok = cpy_parse(pfst_text(new_src))[0] is not None
+    incremental = bool(mode in ('stmt', 'head') and c['model_accept'] and isinstance(tree_out, dict) and tree_out.get('guard'))
+    if mode in ('stmt', 'head') and c['model_accept'] and not isinstance(tree_out, dict):
+        model_accept = None                         # no zipper: the model cannot be evaluated on this case
+    elif mode == 'plan-raises':
+        model_accept = False                        # NotImplementedError is not caught by the fallback
+    elif mode == 'special':
+        model_accept = None
+    else:
+        model_accept = incremental or full_ok
+    res['tally']['path_taken'] = 'incremental' if incremental else ('refused-before-parse' if mode == 'plan-raises' else 'whole-source')
+    if model_accept is not None and bool(raised) == bool(model_accept):
+        res['corr'].append(f'model accepts={model_accept} (incremental={incremental}, whole source valid={full_ok}) '
+                           f'but implementation raised={raised}')
+    nbase = sum(1 for e in r['events'] if e['ev'] == 'base')
+    if mode in ('stmt', 'head') and model_accept is not None and nbase != (1 if incremental else 2):
+        res['corr'].append(f'_reparse_raw_base called {nbase} times, model: incremental={incremental}')
     if raised:
         if R is not None:
-            if mode == 'whole':
-                cls = 'refuses-valid-source|whole-source|unexplained'
-            elif mode == 'plan-raises':
+            if mode == 'plan-raises':
                 cls = 'refuses-valid-source|degenerate-start'
             elif mode == 'special':
                 cls = 'refuses-valid-source|special-path'
-            elif c['model_accept'] is False:
-                cls = f'refuses-valid-source|{c["why"]}|{mode}'
             else:
-                cls = f'refuses-valid-source|unexplained|{raised[0]}'
+                cls = f'refuses-valid-source|unexplained|{mode}|{raised[0]}'
             res['fail'].append((sig(cls), f'raised {raised[0]}: {raised[1]} although the new source is valid'))
         return res
     # returned
@@ -988,7 +1030,7 @@ def phase_e(arg):
         if excluded:
             res['tally']['excluded_trailing_backslash'] = True
             return res
-        if mode in ('stmt', 'head') and c['model_accept']:
+        if incremental:
             cls = f'accepts-invalid-source|wrapper-accepted|{syntax_kind(err)}'
         elif mode == 'special':
             cls = f'accepts-invalid-source|special-path|{syntax_kind(err)}'
@@ -998,12 +1040,12 @@ def phase_e(arg):
         return res
     dR = util.dump_pos(R)
     P = None
-    if mode == 'whole':
-        P = R
-    elif tree_out is not None:
-        P = build_predicted(r, m, tree_out)
+    if mode == 'whole' or (model_accept is not None and not incremental and mode in ('stmt', 'head')):
+        P = R                                        # whole-source reparse (directly or as the fallback)
+    elif incremental and c.get('shape_ok', True):
+        P = build_predicted(r, m, tree_out['tree'])
     dP = util.dump_pos(P) if P is not None else None
-    if P is not None and mode != 'whole':
+    if P is not None and P is not R:
         if dP != r['dump_after']:
             res['corr'].append('tree after the call differs from the model tree: ' + util.first_diff(r['dump_after'], dP))
         # the hypotheses of reparse_eq_full_partial, judged by CPython
@@ -1016,7 +1058,7 @@ def phase_e(arg):
     if P is None or dP != r['dump_after']:
         cls = 'tree-differs|unexplained|' + str(mode)
         what = 'tree differs from the full parse and is not what the model predicts: ' + util.first_diff(r['dump_after'], dR)
-    elif mode == 'whole':
+    elif P is R:
         cls = 'tree-differs|whole-source'
         what = 'whole-source reparse differs from the full parse: ' + util.first_diff(r['dump_after'], dR)
     else:
